@@ -60,7 +60,7 @@ def confirm(d, meta):
     return res
 
 
-ISO = "/tmp/seediso"
+ISO = os.environ.get("SEED_ISO", "/tmp/seediso")
 
 
 def detect(d, meta):
@@ -111,7 +111,7 @@ def main():
         d = os.path.abspath(d)
         mp = os.path.join(d, "meta.json")
         meta = json.load(open(mp))
-        if mode in ("confirm", "all"):
+        if mode in ("confirm", "all") and meta.get("expect") != "pass":
             meta["confirmation"] = confirm(d, meta)
             print(os.path.basename(d), "confirm:", json.dumps(meta["confirmation"])[:400])
         if mode in ("detect", "all"):
